@@ -159,6 +159,11 @@ func (sesh *Session) OpenStream() (*Stream, error) {
 	}
 	stream := makeStream(sesh, id)
 	sesh.streamsM.Lock()
+	if sesh.IsClosed() {
+		// closeSession sweeps the table under this lock; a stream registered after the sweep would never be closed
+		sesh.streamsM.Unlock()
+		return nil, ErrBrokenSession
+	}
 	sesh.streams[id] = stream
 	sesh.streamsM.Unlock()
 	verifhook.At("sesh.open.registered", uint64(id))
